@@ -5267,9 +5267,16 @@ func (a *Agent) TaskDispatch(RequestID uint32, CommandID uint32, Parser *parser.
 										Message["MiscType"] = "reconnect"
 										Message["MiscData"] = fmt.Sprintf("%v;%x", a.NameID, AgentHdr.AgentID)
 
-										// remove the link to the previous parent, in memory and in the database
-										if DemonInfo.Pivots.Parent != nil {
-											teamserver.LinkRemove(DemonInfo.Pivots.Parent, DemonInfo, true)
+										// take the agent out of its previous parent's list; LinkAdd replaces the stored link.
+										// (not LinkRemove: it stores the agent as inactive/"Disconnected" first, and a
+										// teamserver that dies before the update below would not restore the session)
+										if OldParent := DemonInfo.Pivots.Parent; OldParent != nil {
+											for i := range OldParent.Pivots.Links {
+												if OldParent.Pivots.Links[i] == DemonInfo {
+													OldParent.Pivots.Links = append(OldParent.Pivots.Links[:i], OldParent.Pivots.Links[i+1:]...)
+													break
+												}
+											}
 										}
 
 										DemonInfo.Active = true
